@@ -20,7 +20,7 @@ NJ_ASSUME = ['specs/ninja.py (ninja lexing of values and paths) is written from 
 
 TABLE['C02'] = {
     'validate': ['sh'],
-    'modules': ['contracts.ninja', 'contracts.bounded_cmd', 'contracts.linking', 'contracts.argv'],
+    'modules': ['contracts.ninja', 'contracts.bounded_cmd', 'contracts.linking', 'contracts.argv', 'contracts.emitters'],
     'level': 'proof',
     'assumptions': SH_ASSUME + NJ_ASSUME + SPY_ASSUME,
     'trusted_base': ['PyVC (pyvc/*.py): symbolic interpreter, fold normaliser, induction schemas', 'z3 5.1.0',
@@ -38,7 +38,7 @@ MK_ASSUME = ['specs/make.py (GNU make reading of recipe lines, := values, target
 
 TABLE['C01'] = {
     'validate': ['sh', 'make'],
-    'modules': ['contracts.make', 'contracts.bounded_cmd', 'contracts.linking', 'contracts.argv'],
+    'modules': ['contracts.make', 'contracts.bounded_cmd', 'contracts.linking', 'contracts.argv', 'contracts.emitters'],
     'level': 'proof',
     'assumptions': SH_ASSUME + MK_ASSUME + SPY_ASSUME,
     'trusted_base': ['PyVC (pyvc/*.py)', 'z3 5.1.0', 'specs/sh.py', 'specs/make.py'],
@@ -166,7 +166,7 @@ TABLE['C12'] = {
 }
 
 TABLE['C07'] = {
-    'modules': ['contracts.depfile', 'contracts.make'],
+    'modules': ['contracts.depfile', 'contracts.make', 'contracts.emitters'],
     'level': 'other',
     'explanation': 'real compilers and edit histories cannot be put under contract. What is decided: (proof) CcBaseCompiler._call emits -MMD -MF <depfile> whenever a depfile is requested; (proof, for all file names) the -include statements written by Makefile.write name the depfile in TARGET syntax; (bounded, real function) depfixer.emit_deps turns every well-formed gcc depfile text up to the stated bound into exactly one empty rule per dependency, spelled as given with % escaped; (bounded, real cc + GNU make) four generated projects (plain names, blanks, # and %, nested directories) over the edit history build / no-op build / change of a transitively included header / drop-and-delete of the headers / clean / build behave as the property says',
     'assumptions': ['the gcc depfile shape is the grammar stated in contracts/depfile.py::DepfixerReference (written from the gcc documentation of -MMD output)'],
@@ -213,15 +213,15 @@ TABLE['C14'] = {
 }
 
 TABLE['C15'] = {
-    'modules': ['contracts.install'],
-    'level': 'exploration',
-    'explanation': 'no function of the install layer was brought under a deductive contract (file_types.clone machinery, getattr-based tables, external doppel/patchelf tools); the check consists of bounded runtime contracts: installify / InstallOutputs / _uninstall_files on the real classes, and the real install and uninstall targets of a generated project run by GNU make with the real doppel and patchelf under six option sets (prefix in place, separate exec-prefix, DESTDIR with a blank, individually set bin/lib/include/man directories with blanks, a prebuilt source-tree library next to / instead of a project library)',
-    'assumptions': ['the installed doppel 0.5.0 and patchelf are the tools a user runs'],
-    'trusted_base': [],
-    'not_covered': ['versioned libraries, pkg-config files, Windows layouts', 'the ninja backend (no ninja binary in the sandbox)', 'option sets other than the six generated ones'],
-    'level_text': 'Bounded exploration only (labelled): the real installify/InstallOutputs map each file to DESTDIR + the directory of its kind, add run-time dependencies, refuse external files and conflicting destinations, and uninstall names exactly the installed paths; the real install target puts exactly the declared files under the configured directories, rewrites the search paths of the installed program to installed library directories, the program runs, and uninstall leaves nothing. Nothing is proved for this property.',
-    'level_note': 'bounded stand-in only; contract-based proof did not reach this layer (stated in DESIGN.md 8.3)',
-    'technique': 'bounded runtime contracts on the real functions (stand-in; no deductive obligations)',
+    'modules': ['contracts.install', 'contracts.emitters'],
+    'level': 'other',
+    'explanation': 'proved (deductive): make_install_rule and ninja_install_rule emit the install goal iff there are files to copy or packages to deploy, let it depend on `all`, always out of date, running the file commands followed by the package deployment; the uninstall goal iff files were installed, running exactly the removal commands; nothing when installation is disabled. Everything about *which* files go *where* is bounded only (file_types.clone machinery, getattr-based tables, external doppel/patchelf tools): installify / InstallOutputs / _uninstall_files on the real classes, and the real install and uninstall targets of generated projects run by GNU make with the real doppel and patchelf under six option sets (prefix in place, separate exec-prefix, DESTDIR with a blank, individually set bin/lib/include/man directories with blanks, a prebuilt source-tree library next to / instead of a project library) and four further projects (dual-use library, implicit dependency chain, versioned dependency, explicit search directory)',
+    'assumptions': ['the installed doppel 0.5.0 and patchelf are the tools a user runs', '_install_files / _uninstall_files / _install_mopack / can_install are abstract in the goal contracts (their results are arbitrary command lists)'],
+    'trusted_base': ['PyVC (pyvc/*.py)', 'z3 5.1.0'],
+    'not_covered': ['pkg-config files, Windows layouts', 'the ninja backend beyond the goal emitter (no ninja binary in the sandbox)', 'option sets other than the generated ones'],
+    'level_text': 'Partial: the two goal emitters are proved to refine one description of the install / uninstall goals; the mapping of files to directories, the run-time dependency closure, search-path rewriting and uninstall symmetry are bounded explorations (labelled) with the real tools.',
+    'level_note': 'deductive for make_install_rule / ninja_install_rule only; the rest is a bounded stand-in (DESIGN.md 8.3)',
+    'technique': 'contract-based proof of the install goal emitters (PyVC + z3) and bounded runtime contracts on the real functions and tools (stand-in, not counted as proved)',
 }
 
 
